@@ -3,8 +3,12 @@
 package main
 
 import (
+	"bytes"
+	"context"
 	"crypto/sha256"
 	"fmt"
+	"os"
+	"os/exec"
 	"strconv"
 	"strings"
 	"sync"
@@ -16,7 +20,7 @@ import (
 // Content lookup over loopback UDP (the real ContentLookup / contentLookupWorker / findContent / processContent of an
 // asker against scripted discv5 peers).  Lines:
 //
-//	cl <npeers> <answers> <table>:<delays-ms> <kseed> <target> <ids> <scan> | ok <events> <outcome>
+//	cl <npeers> <answers> <table>:<delays-ms> <kseed> <target> <ids> <scan> | ok <events> <outcome> <undrained>   /  panic <msg>  /  err timeout
 //	   answers  per peer 1..n separated by ';' : c<hex> content ("c-" = zero-length) / e<i,j,..> closer nodes ("e." none) /
 //	            x not listening (request times out) / z empty response / g garbage response
 //	   kseed    seed of the node keys (ids and scan are derived from it; printed for the model)
@@ -24,6 +28,9 @@ import (
 //	   events   S<i> FINDCONTENT handler of peer i entered, A<i> it is about to return its answer, T<i> the asker's
 //	            lookup.query handed the outcome for i to tab.trackRequest (hint for the reply order; the only event of an x peer)
 //	   outcome  found:<hex> | notfound | err:<msg>
+//	   undrained  peers whose handler had been entered but had not answered when ContentLookup returned
+//	Every net runs in a CHILD process (re-exec of this binary, `C10 clchild ...`): a panic in one of the lookup's query
+//	goroutines (nothing can recover it in-process) is then observable as `| panic <msg>` instead of ending the run.
 type c10cnet struct {
 	peers  []portalwire.VerifContentPeer
 	table  []int
@@ -109,11 +116,12 @@ func c10cexec(k *c10cnet) string {
 	type out struct {
 		c   []byte
 		err error
+		at  []string
 	}
 	ch := make(chan out, 1)
 	go func() {
-		c, err, _ := net.Lookup(c10contentKey, id[:])
-		ch <- out{c, err}
+		c, err, at := net.LookupTrace(c10contentKey, id[:])
+		ch <- out{c, err, at}
 	}()
 	count := func(ev []string, k byte) int {
 		n := 0
@@ -124,11 +132,15 @@ func c10cexec(k *c10cnet) string {
 		}
 		return n
 	}
+	bound := 15 * time.Second
+	if len(k.table) == 0 {
+		bound = 5 * time.Second // isolated node: one 1 s slowdown, then not found
+	}
 	select {
 	case o := <-ch:
 		// every query has been drained; its T event is logged by another goroutine and may still be on its way
 		var ev []string
-		for w := 0; w < 400; w++ {
+		for w := 0; w < 600; w++ {
 			ev = net.Events()
 			if count(ev, 'T') >= count(ev, 'S') {
 				break
@@ -141,15 +153,16 @@ func c10cexec(k *c10cnet) string {
 		if len(ev) > 0 {
 			st = strings.Join(ev, ",")
 		}
+		undrained := count(o.at, 'S') - count(o.at, 'A')
 		switch {
 		case o.err == nil:
-			return fmt.Sprintf("ok %s found:%s", st, hx(o.c))
+			return fmt.Sprintf("ok %s found:%s %d", st, hx(o.c), undrained)
 		case portalwire.VerifContentNotFound(o.err):
-			return fmt.Sprintf("ok %s notfound", st)
+			return fmt.Sprintf("ok %s notfound %d", st, undrained)
 		default:
-			return fmt.Sprintf("ok %s err:%s", st, strings.ReplaceAll(o.err.Error(), " ", "_"))
+			return fmt.Sprintf("ok %s err:%s %d", st, strings.ReplaceAll(o.err.Error(), " ", "_"), undrained)
 		}
-	case <-time.After(30 * time.Second):
+	case <-time.After(bound):
 		return "err timeout " + strings.Join(net.Events(), ",")
 	}
 }
@@ -227,6 +240,14 @@ func c10content(c *Ctx) {
 	mk := func(table []int, peers ...portalwire.VerifContentPeer) *c10cnet {
 		return &c10cnet{peers: peers, table: table, delays: make([]int, len(peers)), kseed: c.Rng.U64() % 1000000007}
 	}
+	mkd := func(table []int, delays []int, peers ...portalwire.VerifContentPeer) *c10cnet {
+		k := mk(table, peers...)
+		copy(k.delays, delays)
+		for i := range k.peers {
+			k.peers[i].Delay = time.Duration(k.delays[i]) * time.Millisecond
+		}
+		return k
+	}
 	nets := []*c10cnet{
 		mk([]int{1}, C()),                             // found first, empty
 		mk([]int{1}, C(7)),                            // found first, one byte
@@ -236,9 +257,15 @@ func c10content(c *Ctx) {
 		mk([]int{1}, E(2, 3), C(), C(3, 3, 3)),        // empty and non-empty holders
 		mk([]int{1, 2, 3}, C(), C(), C()),             // everybody holds the empty value
 		mk([]int{1}, E(0, 1, 2), E(1), K('x')),        // nobody has it
+		// content arrives while slower peers are still working: the lookup is cancelled and must wait for them
+		mkd([]int{1, 2, 3}, []int{0, 60, 100}, C(5, 5), E(1), E(2)),
+		mkd([]int{1, 2, 3}, []int{80, 0, 50}, E(2), C(6), E(1, 3)),
+		mkd([]int{1, 2}, []int{0, 80}, C(1), K('z')),
+		// an isolated node (empty table): one 1 s pause, then not found - it must not wait for the table to fill
+		mk([]int{}, E(2), C(9)),
 	}
 	c.Count("content_directed_nets")
-	for len(nets) < n+8 {
+	for len(nets) < n+12 {
 		nets = append(nets, c10cgen(c))
 	}
 	n = len(nets)
@@ -250,7 +277,7 @@ func c10content(c *Ctx) {
 		go func(i int) {
 			defer wg.Done()
 			sem <- struct{}{}
-			outs[i] = c10cexec(nets[i])
+			outs[i] = c10cchild(nets[i])
 			<-sem
 		}(i)
 	}
@@ -263,17 +290,59 @@ func c10content(c *Ctx) {
 		if strings.Contains(outs[i], ",A") {
 			c.Count("content_lookups_with_queries")
 		}
-		c.Emit("%s | %s", nets[i].inputs(), outs[i])
+		c.Emit("%s", outs[i])
 	}
+}
+
+// c10cchild runs one net in a child process and returns the whole case line.
+func c10cchild(k *c10cnet) string {
+	exe, err := os.Executable()
+	if err != nil {
+		return k.inputs() + " | err setup no-executable"
+	}
+	f := strings.Fields(k.inputs())
+	ctx, cancel := context.WithTimeout(context.Background(), 40*time.Second)
+	defer cancel()
+	cmd := exec.CommandContext(ctx, exe, "C10", "clchild", f[1], f[2], f[3], f[4])
+	var stdout, stderr bytes.Buffer
+	cmd.Stdout, cmd.Stderr = &stdout, &stderr
+	runErr := cmd.Run()
+	for _, ln := range strings.Split(stdout.String(), "\n") {
+		if strings.HasPrefix(ln, "cl ") && strings.Contains(ln, " | ") {
+			return ln
+		}
+	}
+	// the child died before it could print its line
+	msg := "child-exited-without-a-line"
+	for _, ln := range strings.Split(stderr.String(), "\n") {
+		if strings.HasPrefix(ln, "panic:") || strings.HasPrefix(ln, "fatal error:") {
+			msg = strings.ReplaceAll(strings.TrimSpace(ln), " ", "_")
+			break
+		}
+	}
+	if ctx.Err() != nil {
+		return k.inputs() + " | err timeout child"
+	}
+	_ = runErr
+	return k.inputs() + " | panic " + msg
+}
+
+// c10clchild is the child: one net, one line on stdout.
+func c10clchild(c *Ctx, args []string) {
+	if len(args) < 4 {
+		os.Exit(3)
+	}
+	k := c10cparse(append([]string{"cl"}, args...))
+	out := c10cexec(k)
+	fmt.Printf("%s | %s\n", k.inputs(), out)
+	os.Stdout.Sync()
 }
 
 func c10contentReplay(c *Ctx, f []string) {
 	if len(f) < 4 {
 		return
 	}
-	k := c10cparse(f)
-	out := c10cexec(k)
-	c.Emit("%s | %s", k.inputs(), out)
+	c.Emit("%s", c10cchild(c10cparse(f)))
 }
 
 var _ = strconv.Itoa
